@@ -1,4 +1,5 @@
-/- Search for an input on which the translated statement compilers (`emit_return`, `return_statement`, `throw_statement`, `try_statement`)
+/- Search for an input on which the translated statement compilers (`emit_return`, `return_statement`, `throw_statement`, `try_statement`, `break_statement`,
+`continue_statement`, `while_statement`, `if_statement`)
 and their reference skeletons disagree (run when a tie of Props/FnsTie/Statements.lean no longer checks). -/
 import Yarel.Gen.Fns
 import Yarel.Model.StmtSkeleton
@@ -54,4 +55,41 @@ def main : IO Unit := do
                 if shown < 4 then
                   shown := shown + 1
                   IO.println s!"DISAGREE try_statement in_try_block_before={before} code_len={len} have_catch={hc} have_finally={hf} gen=[{showEffs g}] model=[{showEffs (some m)}]"
+  -- break / continue / while / if
+  let errs : List (Except Fns.CompilerError Unit) := [.ok (), .error .InvalidControlStatement, .error .JumpTooLarge]
+  let headers : List (Option (Int × Int)) := [none, some (0, 0), some (12, 3)]
+  shown := 0
+  for h in headers do
+    let g := effsOf2 (Fns.continue_statement h)
+    if g != some (continueSkeleton h) then
+      n := n + 1
+      IO.println s!"DISAGREE continue_statement loop_header={reprStr h} gen=[{showEffs g}] model=[{showEffs (some (continueSkeleton h))}]"
+    for p in errs do
+      let g := effsOf2 (Fns.break_statement h 40 p 40 p)
+      if g != some (breakSkeleton h 40 p) then
+        n := n + 1
+        if shown < 4 then
+          shown := shown + 1
+          IO.println s!"DISAGREE break_statement loop_header={reprStr h} push_break={reprStr p} gen=[{showEffs g}] model=[{showEffs (some (breakSkeleton h 40 p))}]"
+  shown := 0
+  for len in [0, 5, 300] do
+    for p in errs do
+      let g := effsOf2 (Fns.while_statement (List.replicate len 0) (len + 3) p)
+      let m := whileSkeleton len (len + 3) p
+      if g != some m then
+        n := n + 1
+        if shown < 4 then
+          shown := shown + 1
+          IO.println s!"DISAGREE while_statement code_len={len} pop_loop={reprStr p} gen=[{showEffs g}] model=[{showEffs (some m)}]"
+  shown := 0
+  for he in bools do
+    for ok in bools do
+      for other in bools do
+        let g := effsOf2 (Fns.if_statement 10 20 he other ok)
+        let m := ifSkeleton 10 20 he ok
+        if g != some m then
+          n := n + 1
+          if shown < 4 then
+            shown := shown + 1
+            IO.println s!"DISAGREE if_statement have_else={he} else_starts_ok={ok} gen=[{showEffs g}] model=[{showEffs (some m)}]"
   IO.println s!"disagreements={n}"
